@@ -530,78 +530,90 @@ def r5_setitem_routing(rep, src):
     F = symstr.atom('F', r'[^\n]*')
     R = symstr.atom('R', r'(?s:.*)')
     Rx = symstr.atom("R'", r'(?s:.*)[^\n]')
-    cases = {'F': F, 'F\\n': F + '\n', 'F\\nR\\n': F + '\n' + R + '\n', "F\\nR'": F + '\n' + Rx}
+    CASES = ('F', 'F\\n', 'F\\nR\\n', "F\\nR'")
     item = H.Key('k', 'Key')
+
+    def one(map_ws, map_nl, cname, F, R, Rx):
+        """-> ('ok' | 'fail', message) for one case of the value"""
+        value = {'F': F, 'F\\n': F + '\n', 'F\\nR\\n': F + '\n' + R + '\n', "F\\nR'": F + '\n' + Rx}[cname]
+        calls = []
+
+        def simple(it, args, kw, calls=calls):
+            calls.append(('simple', args[1:], kw))
+
+        def raw(it, args, kw, calls=calls):
+            calls.append(('raw', args[1:], kw))
+        heap = H.Heap(src.mod(PM), hooks={'.set_field_to_simple_value': simple, '.set_field_from_raw_string': raw})
+        heap.symbolic_strings = True
+        para = heap.alloc('Paragraph', {}, name='@paragraph')
+        me = heap.alloc('Deb822ParagraphToStrWrapperMixin', {
+            '_preserve_field_comments_on_field_updates': False, '_auto_resolve_ambiguous_fields': False,
+            '_auto_map_initial_line_whitespace': map_ws, '_auto_map_final_newline_in_multiline_values': map_nl,
+            '_paragraph': para}, name='@wrapper')
+        it = H.Interp(heap)
+        exc = None
+        try:
+            it.call(H.Closure(f.node, {}, me, f.cls), [item, value])
+        except H.Raised as x:
+            exc = x.exc
+        # specification
+        multiline = cname != 'F'
+        ends = cname in ('F\\n', 'F\\nR\\n')
+        if map_ws and not multiline:
+            want = ('simple', F.strip())
+        else:
+            if map_ws:
+                body = {'F\\n': SStr([' ', F.strip(), '\n']), 'F\\nR\\n': SStr([' ', F.strip(), '\n', R, '\n']), "F\\nR'": SStr([' ', F.strip(), '\n', Rx])}[cname]
+            else:
+                body = value
+            if ends:
+                want = ('raw', body)
+            elif map_nl:
+                want = ('raw', body + '\n')
+            else:
+                want = ('ValueError', None)
+        if want[0] == 'ValueError':
+            if exc == 'ValueError' and not calls:
+                return ('ok', 'ValueError, nothing stored')
+            else:
+                return ('fail', 'a multi-line value without final newline must be refused with ValueError before anything is stored (got %s)'
+                         % (exc or ['%s(%r)' % (c[0], c[1]) for c in calls]))
+        if exc is not None:
+            return ('fail', 'raises %s' % exc)
+        if len(calls) != 1:
+            return ('fail', 'the paragraph is updated %d times: %r' % (len(calls), [c[0] for c in calls]))
+        kind, args, _kw = calls[0]
+        got = args[1] if len(args) > 1 else None
+        if kind != want[0] and kind == 'raw' and want[0] == 'simple' and isinstance(got, (SStr, str)) and symstr.lift(got).same(SStr([' ', want[1], '\n'])):
+            # what the single-line setter would have built, handed to the raw setter directly
+            return ('ok', 'raw(%r): the text the single-line setter builds' % (got,))
+        elif kind != want[0]:
+            return ('fail', ('the value is sent to the single-line setter although it contains a newline: its line structure is flattened'
+                                             if kind == 'simple' else 'a value without newline is not sent to the single-line setter'))
+        elif not (isinstance(args[0], H.Key) and args[0].cls == 'k'):
+            return ('fail', 'the field name is not passed on')
+        elif not isinstance(got, (SStr, str)) or not symstr.lift(got).same(want[1]):
+            return ('fail', 'the paragraph receives %r; specified: %r (first line trimmed, continuation lines verbatim)' % (got, want[1]))
+        else:
+            return ('ok', '%s(%r)' % (kind, got))
+
     for map_ws in (True, False):
         for map_nl in (True, False):
-            for cname, value in cases.items():
-                calls = []
-
-                def simple(it, args, kw, calls=calls):
-                    calls.append(('simple', args[1:], kw))
-
-                def raw(it, args, kw, calls=calls):
-                    calls.append(('raw', args[1:], kw))
-                heap = H.Heap(src.mod(PM), hooks={'.set_field_to_simple_value': simple, '.set_field_from_raw_string': raw})
-                heap.symbolic_strings = True
-                para = heap.alloc('Paragraph', {}, name='@paragraph')
-                me = heap.alloc('Deb822ParagraphToStrWrapperMixin', {
-                    '_preserve_field_comments_on_field_updates': False, '_auto_resolve_ambiguous_fields': False,
-                    '_auto_map_initial_line_whitespace': map_ws, '_auto_map_final_newline_in_multiline_values': map_nl,
-                    '_paragraph': para}, name='@wrapper')
-                what = 'value %s, whitespace mapping %s, final-newline mapping %s' % (cname, 'on' if map_ws else 'off', 'on' if map_nl else 'off')
-                it = H.Interp(heap)
-                exc = None
-                try:
-                    it.call(H.Closure(f.node, {}, me, f.cls), [item, value])
-                except H.Raised as x:
-                    exc = x.exc
-                # specification
-                multiline = cname != 'F'
-                ends = cname in ('F\\n', 'F\\nR\\n')
-                if map_ws and not multiline:
-                    want = ('simple', F.strip())
-                else:
-                    if map_ws:
-                        body = {'F\\n': SStr([' ', F.strip(), '\n']), 'F\\nR\\n': SStr([' ', F.strip(), '\n', R, '\n']), "F\\nR'": SStr([' ', F.strip(), '\n', Rx])}[cname]
+            for cname in CASES:
+                # the cases are refined where a decision of the code depends on the value (a first line that is blank, ...)
+                subs = symstr.explore({'F': F.parts[0].lang, 'R': R.parts[0].lang, "R'": Rx.parts[0].lang},
+                                      lambda cur, a_=map_ws, b_=map_nl, c_=cname: one(a_, b_, c_, cur['F'], cur['R'], cur["R'"]))
+                for langs, (verdict, msg) in subs:
+                    sub = '' if len(subs) == 1 else ' [%s]' % ', '.join('%s e.g. %r' % (n_, l_.witness()) for n_, l_ in sorted(langs.items()) if n_ in cname)
+                    what = 'value %s%s, whitespace mapping %s, final-newline mapping %s' % (cname, sub, 'on' if map_ws else 'off', 'on' if map_nl else 'off')
+                    if verdict == 'ok':
+                        rep.ok('C05.R5', f.site, what, msg)
                     else:
-                        body = value
-                    if ends:
-                        want = ('raw', body)
-                    elif map_nl:
-                        want = ('raw', body + '\n')
-                    else:
-                        want = ('ValueError', None)
-                if want[0] == 'ValueError':
-                    if exc == 'ValueError' and not calls:
-                        rep.ok('C05.R5', f.site, what, 'ValueError, nothing stored')
-                    else:
-                        rep.fail('C05.R5', f.site, what, 'a multi-line value without final newline must be refused with ValueError before anything is stored (got %s)'
-                                 % (exc or ['%s(%r)' % (c[0], c[1]) for c in calls]), where=f.where)
-                    continue
-                if exc is not None:
-                    rep.fail('C05.R5', f.site, what, 'raises %s' % exc, where=f.where)
-                    continue
-                if len(calls) != 1:
-                    rep.fail('C05.R5', f.site, what, 'the paragraph is updated %d times: %r' % (len(calls), [c[0] for c in calls]), where=f.where)
-                    continue
-                kind, args, _kw = calls[0]
-                got = args[1] if len(args) > 1 else None
-                if kind != want[0] and kind == 'raw' and want[0] == 'simple' and isinstance(got, (SStr, str)) and symstr.lift(got).same(SStr([' ', want[1], '\n'])):
-                    # what the single-line setter would have built, handed to the raw setter directly
-                    rep.ok('C05.R5', f.site, what, 'raw(%r): the text the single-line setter builds' % (got,))
-                elif kind != want[0]:
-                    rep.fail('C05.R5', f.site, what, ('the value is sent to the single-line setter although it contains a newline: its line structure is flattened'
-                                                     if kind == 'simple' else 'a value without newline is not sent to the single-line setter'), where=f.where)
-                elif not (isinstance(args[0], H.Key) and args[0].cls == 'k'):
-                    rep.fail('C05.R5', f.site, what, 'the field name is not passed on', where=f.where)
-                elif not isinstance(got, (SStr, str)) or not symstr.lift(got).same(want[1]):
-                    rep.fail('C05.R5', f.site, what, 'the paragraph receives %r; specified: %r (first line trimmed, continuation lines verbatim)' % (got, want[1]), where=f.where)
-                else:
-                    rep.ok('C05.R5', f.site, what, '%s(%r)' % (kind, got))
+                        rep.fail('C05.R5', f.site, what, msg, where=f.where)
     # a replaced field keeps its comment: with comment preservation on (and ambiguous fields auto-resolved) the comment
     # element of the old field is handed to the setter as the object itself, not re-rendered from text
-    for cname, value, old_line in (('F', F, ' old\n'), ('F\\nR\\n', F + '\n' + R + '\n', ' old\n'), ('F', F, '\n'), ('F', F, '   \n')):
+    def kept(cname, old_line, F, R):
+        value = F if cname == 'F' else F + '\n' + R + '\n'
         calls = []
 
         def simple3(it, args, kw, calls=calls):
@@ -632,17 +644,15 @@ def r5_setitem_routing(rep, src):
         me = heap.alloc('Deb822ParagraphToStrWrapperMixin', {
             '_preserve_field_comments_on_field_updates': True, '_auto_resolve_ambiguous_fields': True,
             '_auto_map_initial_line_whitespace': True, '_auto_map_final_newline_in_multiline_values': True, '_paragraph': para}, name='@wrapper')
-        what = 'value %s: the comment of the replaced field is kept (old field line %r)' % (cname, old_line)
         it = H.Interp(heap)
         try:
             it.call(H.Closure(f.node, {}, me, f.cls), [item, value])
         except H.Raised as x:
             if touched:
-                rep.fail('C05.R5', f.site, what, 'the comment of the replaced field is converted to text and re-rendered instead of being handed over as the '
-                         'element itself: its exact bytes (e.g. trailing blanks of a comment line) are not preserved', where=f.where)
+                return ('fail', 'the comment of the replaced field is converted to text and re-rendered instead of being handed over as the '
+                         'element itself: its exact bytes (e.g. trailing blanks of a comment line) are not preserved')
             else:
-                rep.fail('C05.R5', f.site, what, 'raises %s' % x.exc, where=f.where)
-            continue
+                return ('fail', 'raises %s' % x.exc)
         # the value that is handed over is the one the caller assigned, routed as without comments -- whatever the old field looked like
         want3 = ('simple', F.strip()) if cname == 'F' else ('raw', SStr([' ', F.strip(), '\n', R, '\n']))
         got3 = calls[0][1][1] if len(calls) == 1 and len(calls[0][1]) > 1 else None
@@ -650,15 +660,25 @@ def r5_setitem_routing(rep, src):
             # the single-line setter stores ' ' + value + '\n' through the raw setter (decided below): one canonical form
             return SStr([' ', v_, '\n']) if kind_ == 'simple' and isinstance(v_, (SStr, str)) else v_
         if len(calls) == 1 and (not isinstance(got3, (SStr, str)) or not symstr.lift(as_raw(calls[0][0], got3)).same(as_raw(*want3))):
-            rep.fail('C05.R5', f.site, what, 'replacing a field whose line after the colon reads %r hands %s(%r) to the paragraph; specified: %s(%r) -- the new value depends on the '
-                     'layout of the old field (a field line without value makes the new value start with a line break)' % (old_line, calls[0][0], got3, want3[0], want3[1]), where=f.where)
+            return ('fail', 'replacing a field whose line after the colon reads %r hands %s(%r) to the paragraph; specified: %s(%r) -- the new value depends on the '
+                     'layout of the old field (a field line without value makes the new value start with a line break)' % (old_line, calls[0][0], got3, want3[0], want3[1]))
         elif len(calls) == 1 and calls[0][2].get('field_comment') == comment and calls[0][2].get('preserve_original_field_comment') in (None, False):
-            rep.ok('C05.R5', f.site, what, 'field_comment is the old field\'s comment element itself')
+            return ('ok', 'field_comment is the old field\'s comment element itself')
         elif len(calls) == 1 and calls[0][2].get('preserve_original_field_comment') is True and calls[0][2].get('field_comment') is None:
-            rep.ok('C05.R5', f.site, what, 'the setter is asked to preserve the original comment')
+            return ('ok', 'the setter is asked to preserve the original comment')
         else:
-            rep.fail('C05.R5', f.site, what, 'the comment lines of the replaced field are not handed over unchanged (the setter receives field_comment=%r): '
-                     'a comment that is re-rendered from text loses its exact bytes' % (calls[0][2].get('field_comment') if calls else None,), where=f.where)
+            return ('fail', 'the comment lines of the replaced field are not handed over unchanged (the setter receives field_comment=%r): '
+                     'a comment that is re-rendered from text loses its exact bytes' % (calls[0][2].get('field_comment') if calls else None,))
+
+    for cname, old_line in (('F', ' old\n'), ('F\\nR\\n', ' old\n'), ('F', '\n'), ('F', '   \n')):
+        subs = symstr.explore({'F': F.parts[0].lang, 'R': R.parts[0].lang}, lambda cur, c_=cname, o_=old_line: kept(c_, o_, cur['F'], cur['R']))
+        for langs, (verdict, msg) in subs:
+            sub = '' if len(subs) == 1 else ' [%s]' % ', '.join('%s e.g. %r' % (n_, l_.witness()) for n_, l_ in sorted(langs.items()) if n_ in cname)
+            what = 'value %s%s: the comment of the replaced field is kept (old field line %r)' % (cname, sub, old_line)
+            if verdict == 'ok':
+                rep.ok('C05.R5', f.site, what, msg)
+            else:
+                rep.fail('C05.R5', f.site, what, msg, where=f.where)
     # the single-line setter: newline refused, ' ' + value + '\n' handed to the raw setter
     s = src.func(PM + ':Deb822ParagraphElement.set_field_to_simple_value')
     rep.saw_func(s)
